@@ -62,6 +62,10 @@ EXPLANATION += (
     ' Round 6: the rows numbered when a tree is built from an h5ad file are the obs rows as read (R-PROV/rows-are-file-positions); memo keys are compared by access path.'
 )
 
+EXPLANATION += (
+    ' Round 7: every cell entered into the data-release cell table was first found absent from the whole table (R-GUARD/unique-insert).'
+)
+
 RULE_TEXT = (
     "one obligation per constructor path, per attribute-assignment site, "
     "per mutation candidate, per helper parameter, per accessor x caller, "
@@ -95,6 +99,7 @@ def check(ctx):
     check_node_identity(ctx, ('taxonomy.',), floor=3)
     check_pairs_from_tree(ctx)
     check_rows_are_file_positions(ctx)
+    check_release_cells_unique(ctx)
     from .C05 import sweep_generic_rules
     sweep_generic_rules(ctx, ('taxonomy.',))
 
@@ -989,3 +994,69 @@ def check_rows_are_file_positions(ctx):
     if n == 0:
         raise AnalysisError('get_taxonomy_tree_from_h5ad no longer hands '
                             'obs records to get_taxonomy_tree')
+
+
+def check_release_cells_unique(ctx):
+    """on the data-release route "no reference cell belongs to two leaves"
+    is enforced while the cell table is read: a cell that is already in
+    the table raises.  Every insertion into the table that is returned
+    must therefore come after a membership test of that very key against
+    that very table (the whole of it, not the part read most recently);
+    an insertion without it -- a bulk `update`, a store after a test
+    against a per-chunk set -- lets a repeated cell through, the later
+    row silently winning."""
+    from ..core.guards import facts_at
+    db = ctx.db
+    rule = 'R-GUARD/unique-insert'
+    fi = db.fn('taxonomy.data_release_utils:get_cell_to_cluster_alias')
+    ctx.touch(fi)
+    cfg = cfg_of(fi)
+    rd = rd_of(fi)
+    rets = [n for n in cfg.nodes if n.kind == 'return' and n.id in rd.live
+            and isinstance(n.ast.value, ast.Name)]
+    if not rets:
+        raise AnalysisError('get_cell_to_cluster_alias: returned table '
+                            'not found')
+    table = rets[0].ast.value.id
+    k = 0
+    for n in cfg.nodes:
+        if n.id not in rd.live or n.ast is None:
+            continue
+        st = n.ast
+        ins_key = None
+        bulk = None
+        if isinstance(st, ast.Assign) and isinstance(
+                st.targets[0], ast.Subscript) and isinstance(
+                    st.targets[0].value, ast.Name) \
+                and st.targets[0].value.id == table:
+            ins_key = st.targets[0].slice
+        for c in cfg.calls_in(n):
+            f = c.func
+            if isinstance(f, ast.Attribute) and f.attr in (
+                    'update', 'setdefault') and isinstance(
+                        f.value, ast.Name) and f.value.id == table:
+                bulk = c
+        if ins_key is None and bulk is None:
+            continue
+        ok = False
+        if ins_key is not None:
+            for (_g, test, truth) in facts_at(cfg, rd, n.id):
+                if isinstance(test, ast.Compare) and isinstance(
+                        test.ops[0], ast.In) and not truth \
+                        and unparse(test.left) == unparse(ins_key) \
+                        and isinstance(test.comparators[0], ast.Name) \
+                        and test.comparators[0].id == table:
+                    # the taken branch of that test raises
+                    ok = True
+        ctx.ob(rule, f'get_cell_to_cluster_alias:insert#{k}',
+               fi.loc(bulk if bulk is not None else st), ok,
+               'a cell is entered only after it was found absent from the '
+               'whole table' if ok else
+               f'`{unparse(bulk if bulk is not None else st)[:60]}` enters '
+               'cells into the table without a test of each cell against '
+               'the table as a whole: a cell listed twice is accepted and '
+               'ends up in the cluster of its last row')
+        k += 1
+    if k == 0:
+        raise AnalysisError('get_cell_to_cluster_alias: no insertion into '
+                            'the returned table found')
